@@ -143,9 +143,12 @@ class MediaFile(ModelMixin["MediaFile"], Base):
         return cast(Optional[MediaFile], clz.get_one(**kwargs))
 
     def toJSON(self, convert_date: bool = True, pure: bool = False) -> JsonObject:
-        blob = self.blob.to_dict(exclude={'rep', 'blob', 'stream_pk', 'encryption_keys'})
-        if blob["created"] and (convert_date or pure):
-            blob["created"] = to_iso_datetime(blob["created"])
+        blob: JsonObject | None = None
+        if self.blob is not None:
+            # the blob can have been removed by a request served at the same time
+            blob = self.blob.to_dict(exclude={'rep', 'blob', 'stream_pk', 'encryption_keys'})
+            if blob["created"] and (convert_date or pure):
+                blob["created"] = to_iso_datetime(blob["created"])
         retval = self.to_dict()
         retval['blob'] = blob
         retval['encryption_keys'] = [
